@@ -38,11 +38,12 @@ TamperOK(e) ==
   /\ (e.decOK => e.bound)                                        \* claims = decoding of the very payload presented
   /\ (e.decOK => \A k \in Keys : e.ver[k] = VerifyOKm(m, k))
   /\ (~e.decOK => \A k \in Keys : ~e.ver[k])
+  /\ \A bk \in DOMAIN e.badVer : ~e.badVer[bk]                    \* what is no public key of the algorithm never verifies anything
 \* C20: evidence decoding succeeds only for a well-formed tagged COSE_Sign1 carrying a claims map
 EnvelopeEvOK(e) ==
   LET env == [tag |-> e.ti.tag, arrLen |-> e.ti.arrLen, wf |-> e.ti.wf, sigLen |-> e.sigLen, trail |-> e.ti.trail,
               payloadMap |-> e.payloadMap] IN
-  /\ ~e.panicked
+  /\ ~e.panicked /\ e.probeOK
   /\ ((e.dec1 \/ e.dec2) /\ ~e.payloadTag => EnvelopeOK(env))       \* (a tag before the claims map is left open)
   /\ e.dec1 = e.dec2                       \* both entry points agree
   /\ (e.dec1 => e.claims)                  \* success attaches claims
